@@ -460,17 +460,18 @@ WB_LONG main(WB_LONG argc, WB_TINY **argv)
             if (output_file == NULL) {
                 fprintf(stderr, "Failed to open output file: %s\n", output);
             }
+            else {
+                /* Write to Output File */
+                if (fwrite(xml, sizeof(WB_UTINY), xml_len, output_file) < xml_len)
+                    fprintf(stderr, "Error while writing to file: %s\n", output);
+                /*
+                else
+                    fprintf(stderr, "Written %u bytes to file: %s\n", xml_len, output);
+                */
 
-            /* Write to Output File */
-            if (fwrite(xml, sizeof(WB_UTINY), xml_len, output_file) < xml_len)
-                fprintf(stderr, "Error while writing to file: %s\n", output);
-            /*
-            else
-                fprintf(stderr, "Written %u bytes to file: %s\n", xml_len, output);
-            */
-
-            if (output_file != stdout)
-                fclose(output_file);
+                if (output_file != stdout)
+                    fclose(output_file);
+            }
         }
 
         /* Clean-up */
